@@ -7,4 +7,5 @@ MANIFEST = {"text": "wip", "note": "wip"}
 
 def jobs(tier):
     B = 8 if tier == "quick" else 12
-    return [fsm_job("fsm_no_zero_time_cycle_b%d" % B, "ASSERT_C08", B)]
+    return [fsm_job("fsm_no_zero_time_cycle_b%d" % B, "ASSERT_C08", B, timeout=2400),
+            fsm_job("fsm_converges_b16", "ASSERT_C08", 16, extra=["GOOD_ENV"], timeout=2400)]
